@@ -104,7 +104,7 @@ CHECKS = {
     },
     "C09": chan("drop ledger after every explored history and every teardown order in the alphabet: each payload instance dropped exactly once; the quick space is re-run under AddressSanitizer in the thorough tier", "§4 C09, §2 E2", extra_jobs=(SEQX_ASAN,)),
     "C11": cache("every read API on every explored history (Cache and AsyncCache handles, bulk and entry/compute forms) returns nothing or the latest live value of its own key; or_insert inserts at most once; compute applies once; lockstep: every schedule (preemption bound 2/3) of insert/remove/invalidate/compute/or_insert/clear racing reads is linearizable against the per-key register", "§5 C11, §2 E3", lockstep=True),
-    "C12": cache("every read API at every explored virtual time: never an entry at/after its expiry; unbounded caches never lose a live entry however many maintenance passes run", "§5 C12"),
+    "C12": cache("every read API at every explored virtual time: never an entry at/after its expiry; unbounded caches never lose a live entry however many maintenance passes run; lockstep: every schedule of an overwrite racing the TTL / TTI cleanup passes leaves the fresh (live) value resident", "§5 C12, §2 E3", lockstep=True),
     "C13": cache("after every step of every explored history current_cost equals the resident cost, and after maintenance the resident cost is within capacity, for all eight policies; lockstep: the same quiescent oracle after every schedule of user operations racing the janitor", "§5 C13, §2 E3", lockstep=True),
     "C16": cache("after every step the listener's notifications are matched against the residency diff: truthful, right reason, never twice, none missing; lockstep: same after every schedule of removals racing eviction", "§5 C16, §2 E3", lockstep=True),
     "C17": cache("every enumeration API on every explored content/batch/shard combination yields exactly the stored unexpired entries once; snapshot → bincode → restore preserves mapping, costs, lifetimes, and the restored cache is held to the capacity oracle", "§5 C17"),
